@@ -49,6 +49,9 @@ def generate0(tier, rng):
                 s, h = micelib.encode(p, rs, d)
                 yield f'mice.all {d} 16384 {hexs(h)} {hexs(s)}'
                 yield f'mice.dec {d} {rs} {hexs(h)} {hexs(s)} {",".join(str(rng.choice([0, 1, rs, rs + 1, 3])) for _ in range(rng.randrange(1, 6)))}'
+        for rs in (2**32 - 1, 2**32, 2**32 + 5, 2**40, 2**62):      # record sizes that need more than 32 bits (one record, small payload)
+            for n_ in (0, 1, 40):
+                yield f'mice.enc {d} {rs} {hexs(rbytes(rng, n_))}'
         big = [16, 100, 255, 256, 1000, 4096, 16383, 16384] + ([16385, 40000] if thorough else [])
         for rs in big:
             for k in (0, 1, 2, 3):
